@@ -32,7 +32,7 @@ struct YmFmOPNA_Private
     unsigned long long m_pos = 0;
     unsigned long long m_out_step = 0;
 
-    void writeReg(uint32_t port, uint16_t addr, uint8_t data);
+    void writeReg(uint32_t port, uint16_t addr, uint8_t data, void *m_chip);
     void nativeGenerate(int16_t *frame, void *m_chip, void *m_output);
 };
 
@@ -85,11 +85,27 @@ void YmFmOPNA::reset()
 
 void YmFmOPNA::writeReg(uint32_t port, uint16_t addr, uint8_t data)
 {
-    p->writeReg(port, addr, data);
+    p->writeReg(port, addr, data, m_chip);
 }
 
-void YmFmOPNA_Private::writeReg(uint32_t port, uint16_t addr, uint8_t data)
+//! Longest backlog of register writes, see YmFmOPN2. (The ring itself holds c_queueSize entries: it must never be overrun.)
+static const long c_queueLimit = 450;
+
+void YmFmOPNA_Private::writeReg(uint32_t port, uint16_t addr, uint8_t data, void *m_chip)
 {
+    if(m_queueCount >= c_queueLimit)
+    {
+        // Too many writes are waiting: hand the oldest one to the chip right now
+        ymfm::ym2608 *chip_r = reinterpret_cast<ymfm::ym2608*>(m_chip);
+        const YmFmOPNA::Reg &front = m_queue[m_tailPos++];
+        if(m_tailPos >= YmFmOPNA::c_queueSize)
+            m_tailPos = 0;
+        --m_queueCount;
+        const uint32_t a = 0 + 2 * ((front.addr >> 8) & 3);
+        chip_r->write(a, front.addr & 0xff);
+        chip_r->write(a + 1, front.data);
+    }
+
     YmFmOPNA::Reg &back = m_queue[m_headPos++];
     back.addr = port > 0 ? addr | 0x100 : addr;
     back.data = data;
